@@ -479,6 +479,12 @@ def assemble(template: str, defines: set | None = None) -> Assembled:
                 sections[cur] += l2 + '\n'
             spec = _parse_kv(spec_s)
             text, orgs, info = build_item(spec, sections, substs, defines, log)
+            if 'expect' in spec:
+                got = ' '.join(text.split())
+                if got != ' '.join(spec['expect'].split()):
+                    raise LostAnchor(f"{spec['file']}: expected `{spec['expect']}`, found `{got}` (a rewrite of this unit depends on it)")
+            if spec.get('emit') == 'no':
+                continue
             start_line = len(out_lines) + 1
             tl = text.split('\n')
             out_lines.extend(tl); origins.extend(orgs[:len(tl)] + [orgs[-1]] * (len(tl) - len(orgs)))
